@@ -266,7 +266,29 @@ def programs():
 
         return grad(l0)(b)
 
-    return {"T1": T1, "T2": T2, "T3": T3, "T4": T4, "T5": T5, "T6": T6}
+    # one function object shared by all threads: autograd.misc.tracers.const_graph caches the traced graph
+    # of its first call and replays it afterwards; threads replay it concurrently on unrelated data
+    from autograd.extend import defjvp, defvjp, primitive
+    from autograd.misc.tracers import const_graph
+
+    if "cg" not in _installed:
+        probe = primitive(lambda x: (Y(), x)[1])
+        defvjp(probe, lambda ans, x: lambda g: g)
+        defjvp(probe, lambda g, ans, x: g)
+        cg = const_graph(lambda x: anp.sum(probe(anp.sin(x)) * x + probe(x * x)))
+        cg(onp.array([0.1, 0.2, 0.3]))  # build the cached graph once, before any thread starts
+        _installed["cg"] = cg
+    CG = _installed["cg"]
+
+    def T7(a, b):
+        x = onp.array([0.3, -1.2, 0.8]) * b
+        return grad(lambda t: CG(t * a) * a)(x)
+
+    def T8(a, b):
+        # nested use of the shared cached function
+        return grad(lambda s: s * grad(lambda t: CG(t * s))(onp.array([0.5, 0.1, -0.4]) * b)[0])(a)
+
+    return {"T1": T1, "T2": T2, "T3": T3, "T4": T4, "T5": T5, "T6": T6, "T7": T7, "T8": T8}
 
 
 PARAMS = [(2.0, 1.0), (1.5, 0.7), (0.8, 1.3), (1.1, 0.9)]
@@ -363,7 +385,7 @@ def explore(res, cfg, tier, seed, shard, nshard, budget):
 
 def free_running(res, seed, iters, nthreads):
     P = programs()
-    names = ["T1", "T3", "T6", "T2", "T4", "T5"]
+    names = ["T1", "T3", "T6", "T2", "T4", "T5", "T7", "T8"]
     old = sys.getswitchinterval()
     sys.setswitchinterval(1e-6)
     try:
@@ -422,9 +444,12 @@ def configs(tier):
     cf.append({"progs": ["T1", "T4", "T4"], "kinds": ["enter_after"], "mode": "dfs"})
     cf.append({"progs": ["T1", "T1"], "kinds": ["enter_before", "exit_after"], "mode": "dfs"})
     cf.append({"progs": ["T6", "T1"], "kinds": ["enter_after"], "mode": "dfs"})
+    cf.append({"progs": ["T7", "T7"], "kinds": ["explicit", "enter_after"], "mode": "dfs"})
+    cf.append({"progs": ["T7", "T8"], "kinds": ["explicit"], "mode": "dfs"})
+    cf.append({"progs": ["T7", "T4", "T7"], "kinds": ["explicit"], "mode": "dfs"})
     # sampled configurations
     nrand = 150 if tier == "quick" else 3000
-    for progs_ in (["T1", "T3", "T6"], ["T1", "T2", "T3", "T4"], ["T6", "T6"], ["T2", "T5", "T1"], ["T1", "T1", "T1", "T1"], ["T3", "T6", "T5"]):
+    for progs_ in (["T1", "T3", "T6"], ["T1", "T2", "T3", "T4"], ["T6", "T6"], ["T2", "T5", "T1"], ["T1", "T1", "T1", "T1"], ["T3", "T6", "T5"], ["T7", "T8", "T1"], ["T8", "T8"]):
         cf.append({"progs": progs_, "kinds": KALL, "mode": "random", "n": nrand})
     if tier == "thorough":
         for pair in (["T1", "T1"], ["T1", "T3"], ["T6", "T1"]):
